@@ -15,23 +15,46 @@ RULE = ('sector/arc correspondence: Sector::points/contains, Arc::points (row bi
         'pixels()/draw()/bounding_box, Sector::offset; angles: whole-degree (start, sweep) pairs (quick: 30 sweeps per start '
         'rotating through -360..360, d in {23,24}; thorough: ALL 360x721 pairs for d in {23,24} and every d in 0..24 for a 1/9 '
         'sample), random hundredths of degrees and random f32 bit patterns in +-1080 deg, sweeps clustered at 0, +-55, +-180, '
-        '+-305, +-360 deg; diameters 0..60; stroke widths 0..12 all alignments, fill/stroke colours present or not; positions '
+        '+-305, +-360 deg; diameters 0..60 (masks, contains windows) and 61..128 (point lists, styled); stroke widths 0..12 all alignments, fill/stroke colours present or not; positions '
         '+-70 and +-2^20. Normals fed to the model come from the hook of the real code. search (implementation only): trig '
         'hypothesis |n - 1024 u| <= 3 and Union/Intersection/EntirePlane choice against f64 at every whole degree, all '
-        'whole-degree pairs, 1e5 (quick) / 2e7 (thorough) random f32 (start, sweep) pairs and (thorough) EVERY f32 bit pattern in +-1080 deg; the same on a second harness binary built with --features fixed_point (eps 10, plus a model correspondence batch with the normals of that build); |sweep| >= 360 deg -> EntirePlane and '
+        'whole-degree pairs, 1e5 (quick) / 2e7 (thorough) random f32 (start, sweep) pairs, quick: every 256th f32 bit pattern in +-1440 deg (residue class rotating with VERIF_SEED, 9e6 angles per build), thorough: EVERY f32 bit pattern in +-1440 deg; measured worst eps is part of every result line (2.12 f32 / 9.85 fixed_point); the same on a second harness binary built with --features fixed_point (eps 10, plus a model correspondence batch with the normals of that build); |sweep| >= 360 deg -> EntirePlane and '
         'sector = circle, arc = ring; every sector/arc point within 1.5 px of the swept angle and every deeper circle point '
         'present, d up to 128.')
-PARTIAL = ['C18_sector_within_sweep / C18_sector_covers_sweep rest on the trig hypothesis (|normal - 1024*(rotated cos,sin)| <= eps), '
-           'which is validated by the p_trig_* suites through the hook, not proved']
-TRUSTED = ['Coq standard-library Reals axioms (ClassicalDedekindReals.sig_forall_dec, sig_not_dec, '
-           'FunctionalExtensionality.functional_extensionality_dep) in C18_sector_halfplane_* / within_sweep / covers_sweep',
+PARTIAL = [
+    'trig hypothesis: `trig_hypothesis ps start sweep eps` and `rays_proper ps` (coq/Proofs/Sectorangle.v; Coq sin/cos) are ASSUMED '
+    'of the external call PlaneSector::new and validated by trig_check (p_trig_*) through the hook, not proved; every angular '
+    'theorem (C18_sector_near_cone / covers_cone / within_sweep / covers_sweep, arc analogues) is conditional on it; the link '
+    '|sweep| >= 360 deg -> EntirePlane is its first clause (p_entire, p_trig_*), likewise Union iff |sweep| >= 180 deg',
+    'C18_sector_near_cone / covers_cone hold for eps <= 10 (covers both builds); the older line-distance forms '
+    'C18_sector_within_sweep / covers_sweep (eps <= 16) bound the distance to the two radial LINES only: below 180 deg that '
+    'alone would allow points up to 1.5/sin(sweep/2) px behind the apex, and from 180 deg on its premise skips centre-near '
+    'points - near_cone / covers_cone / C18_sector_union_exact close both gaps',
+    'outside the angular theorems: |sweep| in [179.999, 180.001) and [359.999, 360) deg (f32 comparison may pick either '
+    'operation: sweep_unambiguous), Intersection sectors with det(right,left) <= 0 = class K18_tiny_sweep_opposite_side '
+    '(|sweep| < 0.12 deg f32 / < 1.01 deg fixed_point: the recorded finding; and 179.88..180 resp. 178.99..180 deg where the '
+    'rounded normals may be exactly opposite), Union sectors within the same resolution of 180 / 360 deg unless both normals '
+    'coincide: there only p_sec_within (true distance to the nearer ray, f64, on the implementation) speaks',
+    'covers_cone asks that the closed 1.5-px disc around the point be strictly inside the sweep (off both radial lines); '
+    'the property text says "further than 1.5 px inside the sweep"',
+    'diameters <= 128 as in the property; angles: the hypothesis is validated for start in +-1080 deg and end angles in '
+    '+-1440 deg (every f32 in thorough, every 256th in quick), from_degrees only',
+]
+TRUSTED = ['Coq standard-library axioms: Reals (ClassicalDedekindReals.sig_forall_dec, sig_not_dec), Classical_Prop.classic (via sqrt/acos in the polar form of the sector), '
+           'FunctionalExtensionality.functional_extensionality_dep) in the C18_sector_* / C18_arc_* theorems over R',
            'external call, validated not proved: sin/cos of micromath (f32) or the I16F16 table behind PlaneSector::new; observed '
-           'through the add-only hook embedded_graphics::primitives::verif_hooks::plane_sector_parts',
+           'through the add-only hook embedded_graphics::primitives::verif_hooks::plane_sector_parts; trig_check '
+           '(harness/src/suites/c18_sector.rs) uses f64 sin/cos where the Coq definition uses the real functions',
            'bevel kind/normal of sector/styled.rs:63-88 are recomputed in harness/src/suites/c18_sector.rs through the public Angle API']
-ASSUMPTIONS = ['sector/arc bounding boxes within +-2^29 (rect_ok), where the unbounded model equals i32/u32 arithmetic']
+ASSUMPTIONS = ['sector/arc bounding boxes within +-2^29 (rect_ok), where the unbounded model equals i32/u32 arithmetic',
+               'contains() probes within 32767 doubled units of the centre per axis (probe_ok, Proofs/Sectormodel.v): the i32 '
+               '`length_squared` of the code wraps beyond (release: Sector (0,0) d=11 sweep 360 .contains((32773,5)) = true; with '
+               'overflow checks: panic) - C05_sector_far_probe_wraps is the machine-checked witness; diameters < 2^15']
 
-EPS_MILLI = 3000        # f32 / micromath build: measured 2.12
-EPS_MILLI_FP = 10000    # fixed_point build: whole-degree table lookup, 1024*sin(0.5 deg) = 8.94 + truncation; measured 9.80
+EPS_MILLI = 3000        # f32 / micromath build: measured 2.118 over every f32 angle in +-1440 deg
+EPS_MILLI_FP = 10000    # fixed_point build: whole-degree table lookup, 1024*sin(0.5 deg) = 8.94 + truncation; measured 9.858 over every f32 angle in +-1440 deg.
+                        # 10 is the eps at which C18_sector_near_cone_fixed_point / covers_cone_fixed_point are instantiated
+                        # (their proof needs eps <= 10; the line-distance theorems allow 16): the test is exactly the theorem's hypothesis
 
 
 def D(k):
@@ -138,6 +161,21 @@ def cases(tier, rng):
         out.append(J('sec_styled', x, y, d, a, s, ps, *nn[5:8], *st1))
         out.append(J('arc_styled', x, y, d, a, s, ps, *st2))
         out.append(J('sec_offset', x, y, d, rng.randrange(-14, 15)))
+    # (3b) diameters up to 128 (the range of the accuracy theorems): point lists, a few styled
+    spec = []
+    for _ in range(150 if tier == 'quick' else 3000):
+        spec.append((coord(rng), coord(rng), rng.randrange(61, 129), rand_angle(rng), rand_sweep(rng), rand_style(rng)))
+    for dd in (64, 100, 127, 128):
+        for (a, s) in ((D(0), D(90)), (D(30), D(-300)), (D(210), D(120)), (D(10), D(20)), (D(0), D(360)), (D(45), D(200))):
+            spec.append((0, 0, dd, a, s, (7, 9, 5, 1)))
+    hs = hook([(t[3], t[4]) for t in spec])
+    for k, ((x, y, d, a, s, st), nn) in enumerate(zip(spec, hs)):
+        ps = J(*nn[:5])
+        out.append(J('sec_points', x, y, d, a, s, ps))
+        out.append(J('arc_points', x, y, d, a, s, ps))
+        if k % 5 == 0:
+            out.append(J('sec_styled', x, y, d, a, s, ps, *nn[5:8], *st))
+            out.append(J('arc_styled', x, y, d, a, s, ps, *st))
     # (4) styled, whole degrees around the bevel / operation thresholds, all alignments
     sw = [0, 1, 30, 54, 55, 56, 90, 179, 180, 181, 270, 304, 305, 306, 359, 360]
     g = [(s, w * sg) for s in range(0, 360, 15 if tier == 'quick' else 5) for w in sw for sg in (1, -1)]
@@ -151,16 +189,20 @@ def cases(tier, rng):
     return out
 
 
-TOP = 0x44870000  # f32 bits of 1080.0
+TOP = 0x44B40000  # f32 bits of 1440.0: start in +-1080 deg plus sweeps up to +-360 deg for the end angle
 
 
 def trig_bits(tier, rng, eps):
-    """with_angle for every f32 bit pattern in +-1080 deg (thorough) / 8 random windows of 2^18 patterns (quick)"""
+    """with_angle for f32 bit patterns of angles in +-1440 deg.
+    quick: a stratified exhaustive slice - every 256th bit pattern, the residue class rotating with VERIF_SEED
+    (9 million angles per build); thorough: EVERY bit pattern."""
     out = []
     if tier == 'quick':
-        for _ in range(8):
-            lo = rng.randrange(0, TOP - (1 << 18)) | (rng.randrange(2) << 31)
-            out.append(J('p_trig_bits', lo, lo + (1 << 18), eps))
+        off = int(os.environ.get('VERIF_SEED', '1')) % 256
+        step = 1 << 27
+        for sign in (0, 1 << 31):
+            for lo in range(0, TOP + 1, step):
+                out.append(J('p_trig_stride', sign | lo, sign | min(lo + step, TOP + 1), 256, off, eps))
     else:
         for sign in (0, 1 << 31):
             for lo in range(0, TOP + 1, 1 << 24):
@@ -189,6 +231,8 @@ def search(tier, rng):
         k = rng.random()
         d = rng.randrange(0, 26) if k < 0.5 else rng.randrange(0, 129)
         out.append(J('p_sec_within', coord(rng), coord(rng), d, rand_angle(rng), rand_sweep(rng)))
+    for _ in range(200 if tier == 'quick' else 4000):
+        out.append(J('p_sec_far', coord(rng), coord(rng), rng.randrange(0, 129), rand_angle(rng), rand_sweep(rng)))
     return out + fixed_point_search(tier, rng)
 
 
